@@ -120,10 +120,25 @@ def is_valid(kind, attr, value):
     return True
 
 
+BAD_ADD_ATTRS = [
+    {'bogus': 1}, {'meta': {'k': 1}, 'no_such_option': 'x'},
+    {'meta': [1, 2]}, {'preamble': {'$bytes': '70'}},
+    {'meta': {'k': 1}, 'encoding': 5}, {'meta': {'a': 1}, 'diff': 'text'},
+    {'meta': {'a': 1}, 'diff': {'$bytes': '780a'}, 'diff_type': 'nope'},
+    {'meta': {'a': 1}, 'meta_format': 'yaml'},
+    {'preamble': 'p', 'preamble_mimetype': 'text/html'},
+    {'preamble': 'p', 'preamble_indent': '4'},
+]
+
+
 def gen_tree_ops(rng, tname, max_changes=3, max_files=3, p_set=0.5,
-                 enc_pool=None, p_invalid=0.0, diffs=None, full=False):
+                 enc_pool=None, p_invalid=0.0, diffs=None, full=False,
+                 p_bad_add=0.0, p_list_edit=0.0):
     """Ops building one tree through the public API.  `full`: give every
-    file a metadata so the tree serialises."""
+    file a metadata so the tree serialises.  p_bad_add: add_change /
+    add_file calls with an unusable argument in between (rejected, caught,
+    the caller carries on); p_list_edit: the changes / files lists edited in
+    place at the end."""
     ops = []
     attrs = {}
 
@@ -162,6 +177,10 @@ def gen_tree_ops(rng, tname, max_changes=3, max_files=3, p_set=0.5,
         if rng.chance(0.3):
             cattrs['meta'] = valid_value(rng, 'change', 'meta')
 
+        if p_bad_add and rng.chance(p_bad_add):
+            ops.append({'op': 'add_change', 'tree': tname, 'rejected': True,
+                        'attrs': dict(rng.choice(BAD_ADD_ATTRS))})
+
         ops.append({'op': 'add_change', 'tree': tname, 'attrs': cattrs})
         sets([ci], 'change', sorted(ATTRS['change']), p_set * 0.4)
         nf = rng.randint(0 if not full else 1, max_files)
@@ -181,9 +200,21 @@ def gen_tree_ops(rng, tname, max_changes=3, max_files=3, p_set=0.5,
             if rng.chance(0.2):
                 fattrs['diff_type'] = rng.choice(['text', 'binary'])
 
+            if p_bad_add and rng.chance(p_bad_add):
+                ops.append({'op': 'add_file', 'tree': tname, 'change': ci,
+                            'rejected': True,
+                            'attrs': dict(rng.choice(BAD_ADD_ATTRS))})
+
             ops.append({'op': 'add_file', 'tree': tname, 'change': ci,
                         'attrs': fattrs})
             sets([ci, fi], 'file', sorted(ATTRS['file']), p_set * 0.3)
+
+    if p_list_edit and rng.chance(p_list_edit):
+        for _ in range(rng.randint(1, 3)):
+            ops.append({'op': 'list_edit', 'tree': tname,
+                        'path': rng.choice([[], [0], [0], [1]]),
+                        'how': rng.choice(['reverse', 'rotate', 'swap',
+                                           'del_first', 'del_last'])})
 
     return ops
 
